@@ -19,6 +19,13 @@ copy(update=...) at any depth / re-parse of the own output. Values are taken fro
 instance of the same schema at the same static field position. A reached state is checked only if
 it is equal to a freshly validated instance built from the harness's own walk of the object (so it
 is a valid instance in the sense of the statement, and None means omitted).
+Value and construction alphabets (real code only, cases with nomodel=True): string places take values from the full str domain
+(unpaired surrogates as produced by os.fsdecode / a JSON \\udXXX escape, NUL, BOM, line/paragraph separators, C0/C1 controls, non-BMP, very
+long; NEL and long keys with spaces only in the fixed probes of F24/F25); values may be given as already-constructed objects of the field
+type (`{"\u00a7obj": kind, ...}` places of an input, see `materialise`: Duration with calendar / negative / fractional parts, PintUnit,
+PintQuantity with int / float magnitude, nested schema instances, parser-built value schemas, user value types), at construction and by
+later assignment (history op "setraw"); user-registered value types (`["ext", "uv-<kind>-<order>"]`) whose JSON encoder is registered
+with the decorator / before the schema class / after the family / after the instances exist / after a first refused dump.
 Correspondence: value obtained by pydantic vs. model `decode`, JSON produced by pydantic vs.
 model `encode` (parsed JSON equality, arrays of set-typed positions sorted).
 """
@@ -183,6 +190,371 @@ def _pv_unitless(fam, root, inp):
     return walk(["model", root], inp)
 
 
+# ----------------------------------------------------------------------------- user-registered value types
+# Value types that are not models and not built in: a class with a `Parser` (schema/parser.py ParserMixin) whose JSON
+# encoder lives in the dynamic registry of schema/encoder.py. Field types ["ext", "uv-<kind>-<order>"] (real code only).
+# Every family build makes FRESH classes (the registry refuses a second registration), and registers the encoder
+#   deco    with the @json_encoder decorator on the class itself (what the built-in types do)
+#   early   add_json_encoder() before the schema class that uses the type is declared
+#   late    add_json_encoder() after the whole family of schema classes is declared, before any instance exists
+#   inst    add_json_encoder() after the instances were created (validated), before their first dump
+#   dumped  add_json_encoder() after a first dump of the instances was attempted (and legitimately refused: TypeError)
+# The clauses are checked only after the registration, i.e. when the type is a supported (serialisable) value type.
+UV_KINDS = ["ratio", "point", "ver"]
+UV_ORDERS = ["deco", "early", "late", "inst", "dumped"]
+_UV = {"cache": {}, "pending": []}
+UV_INPUTS = dict(ratio=["3/4", "1/3", "-7/2", "5", "0", "22/7", "10/4", " 1/8 "], point=["1;2", "0;0", "-1.5;2000.0", "0.1;0.2", "1e22;-0.0", "3;4"],
+                 ver=[[1, 2, 3], [0], [10, 0, 0, 1], "1.2.3", "0.1", [2 ** 40, 1]])
+
+
+def _uv_make(kind):
+    """(fresh value class, encoder function)"""
+    from fractions import Fraction
+
+    from metador_core.schema.parser import BaseParser, ParserMixin
+
+    if kind == "ratio":
+        class RatioParser(BaseParser):
+            schema_info = dict(title="ratio numerator/denominator", type="string")
+
+            @classmethod
+            def parse(cls, tcls, v):
+                if isinstance(v, tcls):
+                    return v
+                if isinstance(v, bool) or not isinstance(v, (str, int, Fraction)):
+                    raise TypeError("expected str or Fraction, got %s" % type(v).__name__)
+                return tcls(v)
+
+        class Ratio(ParserMixin, Fraction):
+            Parser = RatioParser
+
+        return Ratio, str
+    if kind == "point":
+        class Point(ParserMixin):
+            def __init__(self, x, y):
+                self.x, self.y = float(x), float(y)
+
+            def __eq__(self, other):
+                return isinstance(other, Point) and (self.x, self.y) == (other.x, other.y)
+
+            def __hash__(self):
+                return hash((self.x, self.y))
+
+            def __repr__(self):
+                return "Point(%r, %r)" % (self.x, self.y)
+
+            class Parser(BaseParser):
+                @classmethod
+                def parse(cls, tcls, v):
+                    if isinstance(v, tcls):
+                        return v
+                    if not isinstance(v, str):
+                        raise TypeError("expected 'x;y'")
+                    x, y = v.split(";")
+                    return tcls(x, y)
+
+        return Point, (lambda p: "%r;%r" % (p.x, p.y))
+
+    class Ver(ParserMixin):  # encoded as a JSON array (an encoder need not produce a string)
+        def __init__(self, parts):
+            self.parts = tuple(parts)
+
+        def __eq__(self, other):
+            return isinstance(other, Ver) and self.parts == other.parts
+
+        def __hash__(self):
+            return hash(self.parts)
+
+        def __repr__(self):
+            return "Ver%r" % (self.parts,)
+
+    class VerParser(BaseParser):
+        @classmethod
+        def parse(cls, tcls, v):
+            if isinstance(v, tcls):
+                return v
+            if isinstance(v, str):
+                v = [int(x) for x in v.split(".")]
+            if not isinstance(v, (list, tuple)) or not v or any(isinstance(x, bool) or not isinstance(x, int) for x in v):
+                raise TypeError("expected a list of ints or 'a.b.c'")
+            return tcls(v)
+
+    Ver.Parser = VerParser  # the parser is attached to an existing class (before any schema uses it)
+    return Ver, (lambda w: list(w.parts))
+
+
+def _uv_hint(name):
+    def hint():
+        if name not in _UV["cache"]:
+            from metador_core.schema.encoder import add_json_encoder, json_encoder
+
+            _, kind, order = name.split("-")
+            cls, enc = _uv_make(kind)
+            if order == "deco":
+                cls = json_encoder(enc)(cls)
+            elif order == "early":
+                add_json_encoder(cls, enc)
+            else:
+                _UV["pending"].append((order, cls, enc))
+            _UV["cache"][name] = cls
+        return _UV["cache"][name]
+    return hint
+
+
+def _uv_register(upto):
+    """Register the encoders still pending for the orders in `upto`."""
+    from metador_core.schema.encoder import add_json_encoder
+
+    keep = []
+    for order, cls, enc in _UV["pending"]:
+        if order in upto:
+            add_json_encoder(cls, enc)
+        else:
+            keep.append((order, cls, enc))
+    _UV["pending"] = keep
+
+
+def build_family(fam, upto=("late",)):
+    """Real classes of a family; user value types are made afresh, encoders of the orders in `upto` registered after the build."""
+    _UV["cache"], _UV["pending"] = {}, []
+    F = G.Family(fam)
+    _uv_register(upto)
+    return F
+
+
+for _k in UV_KINDS:
+    for _o in UV_ORDERS:
+        G.register_ext("uv-%s-%s" % (_k, _o), _uv_hint("uv-%s-%s" % (_k, _o)), (lambda rng, _k=_k: rng.choice(UV_INPUTS[_k])))
+
+
+def add_uv_fields(rng, fam, p=0.8):
+    """Give classes of a generated family fields holding user-registered value types (plain / Optional / List), every registration order."""
+    fam = json.loads(json.dumps(fam))
+    for cd in fam:
+        if cd["parent"] and G.eff_extra(fam, cd["parent"]) == "forbid":
+            continue
+        if rng.random() > p:
+            continue
+        for j in range(rng.randrange(1, 3)):
+            t = ["ext", "uv-%s-%s" % (rng.choice(UV_KINDS), rng.choice(UV_ORDERS))]
+            r = rng.random()
+            t = t if r < 0.5 else (["opt", t] if r < 0.7 else (["list", t] if r < 0.9 else ["opt", ["list", t]]))
+            cd["fields"].append(["v%d%s" % (j, cd["name"].lower()[0]), t, None])
+    return fam
+
+
+# ----------------------------------------------------------------------------- wide values: the full str domain, constructed objects
+# (real code only; the driver's strings travel as UTF-8 hex, so these cases carry nomodel=True)
+# NEL (U+0085) and long keys with spaces are recorded YAML findings (fixed probes in focused_families), kept out of the pools.
+WIDE_STR = [
+    "caf\udce9_results.csv", "\udc80", "\ud800", "\udfff", "\udc00\ud800", "a\ud83dz", "x\udcff\udcfe",  # unpaired surrogates (os.fsdecode / json \udXXX)
+    "a\x00b", "\x00", "\x00\x00a", "\ufeffa", "a\ufeff", "\ufeff", "a\u2028b", "a\u2029b", "\u2028", "a\u00a0b", "\u3000a", "a\u200bb", "\u200e", "\ufffe", "\uffff", "\ufffd",
+    "a\U0010ffffb", "\U0001F600", "\U0001F468\u200d\U0001F469\u200d\U0001F467", "e\u0301", "\u00e9", "\x01", "\x07\x08", "\x1b[0m", "\x7f", "a\x80b", "a\x9fb", "a\x1fb", "a\x0bb", "a\x0cb", "a\x1cb",
+    "a\rb", "a\r", "a\tb", "x" * 5000, "a b " * 2000, "\u00e9" * 300, "\u65e5\u672c" * 500, "'" * 200, '"' * 200, "\\" * 200, "a\n" * 300, " \n \n x", "#" * 200, ": " * 100 + "x", "- " * 100 + "x",
+    "a: b " * 100, "x " * 60 + "\udc80", "\\ud800", "\\u0000", "{\"a\": 1}", "[1, 2]", "!!python/object:os.system", "%YAML 1.2", "---", "\"\\udc80\"", "\ud83d\ude00"[0:1] + "\ude00",
+]
+OBJ = "\u00a7obj"  # marker key of an input value that is given as an already-constructed object (see `materialise`)
+DUR_KW = [dict(years=1, months=2, days=3), dict(months=18), dict(years=2), dict(years=1, hours=12), dict(months=1, days=1), dict(weeks=60), dict(days=400), dict(hours=3, minutes=4, seconds=1),
+          dict(milliseconds=250), dict(microseconds=1), dict(seconds=-5), dict(days=-1, hours=1), dict(years=-1), dict(years=1.5), dict(seconds=0.1), dict(days=1.5), dict(), dict(months=1, days=-31),
+          dict(seconds=10 ** 10), dict(days=10 ** 7), dict(minutes=90), dict(hours=36), dict(weeks=1, days=1, hours=1, minutes=1, seconds=1, milliseconds=1, microseconds=1)]
+QTY_MAGS = [1, 5, -3, 1000, 10 ** 20, 0.5, 2.5, -0.25, 1e-7, 1e22, 0.30000000000000004, 5.0, 123456789.125]  # int / float magnitudes (Fraction / Decimal / complex magnitudes: see the report of round 3)
+QTY_UNITS = ["m", "meter", "km", "s", "kg*m/s**2", "1/s", "%", "", "count", "delta_degC", "eV", "m*m", "m/m", "km/h"]
+
+
+NUM = "\u00a7num"  # {NUM: "fraction" | "decimal" | "complex", "v": text}: a magnitude that is neither int nor float (fixed probe of F39 only)
+
+
+def _exotic_num(a):
+    import decimal
+    import fractions
+
+    return {"fraction": fractions.Fraction, "decimal": decimal.Decimal, "complex": complex}[a[NUM]](a["v"])
+
+
+def _has_exotic_mag(x):
+    if isinstance(x, dict):
+        return NUM in x or any(_has_exotic_mag(v) for v in x.values())
+    return isinstance(x, list) and any(_has_exotic_mag(v) for v in x)
+
+
+def quantity_object_probe():
+    """Fixed probe for F39 (recorded, not repaired): a PintQuantity OBJECT whose magnitude is a Fraction / Decimal / complex number is passed
+    through unchanged by StringParser.parse (types.py), but its text ("1/3 meter", "1.10 meter", "(2+1j) meter") reads back as a float
+    quantity that is not equal / is refused by pint. The random generators use int and float magnitudes only."""
+    fam = [dict(name="Aa", parent=None, extra=None, fields=[["q", ["qty"], None]], consts=[], overrides=[], mandatory=[])]
+    mk = lambda kind, v: {"q": {OBJ: "qty", "args": [{NUM: kind, "v": v}, "m"]}}
+    return dict(kind="fam", fam=fam, root="Aa", inputs=[mk("fraction", "1/3"), mk("decimal", "1.10"), mk("complex", "2+1j")], nomodel=True, wide=True)
+
+
+def _make_obj(m, classes):
+    from metador_core.schema.types import Duration, PintQuantity, PintUnit
+
+    k = m[OBJ]
+    if k == "dur":
+        return Duration(**m["kw"])
+    if k == "unit":
+        return PintUnit(m["s"])
+    if k == "qty":
+        return PintQuantity(*[_exotic_num(a) if isinstance(a, dict) else a for a in m["args"]])
+    if k == "model":  # a nested schema instance, built by the user with the class of that place
+        v = materialise(m["v"], classes)
+        return classes[m["cls"]](**v) if m.get("how") == "kw" and all(isinstance(x, str) and x.isidentifier() for x in v) else classes[m["cls"]].parse_obj(v)
+    if k == "ext":
+        cls = G.EXT_TYPES[m["name"]][0]()
+        v = m["v"]
+        if m["name"].startswith("pv-"):
+            return cls(**v)
+        kind = m["name"].split("-")[1]
+        if kind == "ratio":
+            return cls(v.strip())
+        if kind == "point":
+            return cls(*v.split(";"))
+        return cls([int(x) for x in v.split(".")] if isinstance(v, str) else v)
+    raise ValueError("unknown object marker %r" % (m,))
+
+
+def materialise(x, classes=None):
+    """JSON input -> what is given to the schema: `{OBJ: kind, ...}` places become constructed objects."""
+    if isinstance(x, dict):
+        if OBJ in x:
+            return _make_obj(x, classes or {})
+        return {k: materialise(v, classes) for k, v in x.items()}
+    if isinstance(x, list):
+        return [materialise(v, classes) for v in x]
+    return x
+
+
+def _has_obj(x):
+    if isinstance(x, dict):
+        return OBJ in x or any(_has_obj(v) for v in x.values())
+    return isinstance(x, list) and any(_has_obj(v) for v in x)
+
+
+def _has_obj_kind(x, kind):
+    if isinstance(x, dict):
+        return x.get(OBJ) == kind or any(_has_obj_kind(v, kind) for v in x.values())
+    return isinstance(x, list) and any(_has_obj_kind(v, kind) for v in x)
+
+
+def _count_obj(x):
+    if isinstance(x, dict):
+        return (1 if OBJ in x else 0) + sum(_count_obj(v) for v in x.values())
+    return sum(_count_obj(v) for v in x) if isinstance(x, list) else 0
+
+
+def markers_ok(fam, root, inp):
+    """Every constructed object of the input stands at a declared field of its own type (an object put into an untyped
+    place - an extra field, a place left over by shrinking - is not a value of a supported field type)."""
+    seen = [0]
+
+    def fn(ty, v):
+        if ty[0] in ("opt", "ann", "list", "set"):
+            return NotImplemented
+        if isinstance(v, dict) and OBJ in v:
+            k = v[OBJ]
+            if k in ("dur", "unit", "qty") and ty[0] == k:
+                seen[0] += 1
+            elif k == "ext" and ty[0] == "ext" and v.get("name") == ty[1]:
+                seen[0] += 1
+            elif k == "model" and ty[0] == "model" and v.get("cls") == ty[1] and isinstance(v.get("v"), dict) and markers_ok(fam, ty[1], v["v"]):
+                seen[0] += 1 + _count_obj(v["v"])
+            return v
+        return NotImplemented
+    if not isinstance(inp, dict) or OBJ in inp:
+        return False
+    n = _count_obj(inp)
+    if n:
+        map_typed(fam, ["model", root], inp, _skip_first(fn))
+    return seen[0] == n
+
+
+def make_instance(S, inp, classes=None):
+    return S.parse_obj(materialise(json.loads(json.dumps(inp)), classes))
+
+
+def map_typed(fam, ty, v, fn):
+    """Type-directed rewrite of a JSON input: fn(ty, v) returns a replacement or NotImplemented (= descend)."""
+    r = fn(ty, v)
+    if r is not NotImplemented:
+        return r
+    k = ty[0]
+    if k in ("opt", "ann"):
+        return v if v is None else map_typed(fam, ty[1], v, fn)
+    if k in ("list", "set"):
+        return [map_typed(fam, ty[1], x, fn) for x in v] if isinstance(v, list) else v
+    if k == "model" and isinstance(v, dict) and OBJ not in v:
+        try:
+            ft = {f[0]: f[1] for f in G.eff_fields(fam, ty[1])}
+        except KeyError:
+            return v
+        return {kk: (map_typed(fam, ft[kk], x, fn) if kk in ft else x) for kk, x in v.items()}
+    return v  # unions: the alternative a value was generated for is not recorded
+
+
+def _widen_leaves(rng, inp, n=2):
+    """Replace up to n string leaves (values, not keys) of a hint-driven input of an installed schema by wide strings, in place."""
+    leaves = []
+
+    def walk(x):
+        for k in (x if isinstance(x, dict) else range(len(x))):
+            if isinstance(x[k], str):
+                leaves.append((x, k))
+            elif isinstance(x[k], (dict, list)):
+                walk(x[k])
+    walk(inp)
+    for x, k in rng.sample(leaves, min(n, len(leaves))):
+        x[k] = rng.choice(WIDE_STR)
+
+
+def _skip_first(fn):
+    first = [True]
+
+    def g(ty, v):
+        if first[0]:
+            first[0] = False
+            return NotImplemented
+        return fn(ty, v)
+    return g
+
+
+def widen_input(rng, fam, root, inp, p=0.35):
+    """Values of str / non-empty-str places (and string values of extra fields) from the full str domain."""
+    def fn(ty, v):
+        if ty[0] in ("str", "nes") and isinstance(v, str) and rng.random() < p:
+            return rng.choice(WIDE_STR)
+        return NotImplemented
+    out = map_typed(fam, ["model", root], inp, fn)
+    names = {f[0] for f in G.eff_fields(fam, root)}
+    for k in out:
+        if k not in names and isinstance(out[k], str) and rng.random() < p:
+            out[k] = rng.choice(WIDE_STR)
+    return out
+
+
+def objectify_input(rng, fam, root, inp, p=0.5):
+    """Values given as already-constructed objects of the field type (Duration, PintUnit, PintQuantity, nested schema instances,
+    parser-built value schemas, user value types), also in non-normal forms, instead of their JSON / string form."""
+    def fn(ty, v):
+        k = ty[0]
+        if rng.random() >= p:
+            return NotImplemented
+        if k == "dur" and isinstance(v, str):
+            return {OBJ: "dur", "kw": rng.choice(DUR_KW)}
+        if k == "unit" and isinstance(v, str):
+            return {OBJ: "unit", "s": v if rng.random() < 0.5 else rng.choice(QTY_UNITS)}
+        if k == "qty" and isinstance(v, str):
+            return {OBJ: "qty", "args": [v] if rng.random() < 0.4 else [rng.choice(QTY_MAGS), rng.choice(QTY_UNITS)]}
+        if k == "model" and isinstance(v, dict) and OBJ not in v:
+            inner = map_typed(fam, ty, v, _skip_first(fn))
+            return {OBJ: "model", "cls": ty[1], "v": inner, "how": rng.choice(["parse_obj", "kw"])}
+        if k == "ext":
+            if ty[1].startswith("pv-"):
+                return {OBJ: "ext", "name": ty[1], "v": v} if isinstance(v, dict) and ty[1] != "pv-si" else v
+            return {OBJ: "ext", "name": ty[1], "v": v}
+        return NotImplemented
+    return map_typed(fam, ["model", root], inp, _skip_first(fn))  # the instance itself is built by parse_obj
+
+
 # ----------------------------------------------------------------------------- oracle (real code)
 def _has_set(v):
     """Is the order of the serialised text not determined by the instance? (sets, and the extra
@@ -304,7 +676,9 @@ def check_instance(S, o, inp, schema_name, hist=None):
         forms["yaml"] = o.yaml()
     except Exception as e:
         bad("serialise-raises", form="yaml", error="%s: %s" % (type(e).__name__, e))
-    setfree = not _has_set(o)
+    # identical text on the second trip: for set-free instances; not demanded (the statement asks for equal instances) when a quantity was
+    # given as a constructed object: PintQuantity(5, "m/s") is kept as it is (int magnitude), its text "5 meter / second" is read as 5.0
+    setfree = not _has_set(o) and not _has_obj_kind([inp, (hist or {}).get("inputs")], "qty")
     for form, text in forms.items():
         try:
             o2 = S.parse_raw(text)
@@ -385,6 +759,8 @@ def check_instance(S, o, inp, schema_name, hist=None):
 #   ["dump", form]                              json | bytes | yaml | json_dict | dict | str, result ignored
 #   ["reparse", form]                           continue with S.parse_raw(own output)
 #   ["set", path, src, dpath]                   assign (attribute / list item / dict value) a copy of the donor value
+#   ["setraw", path, src, dpath]                assign to an attribute the un-validated input value the donor was built from at that field
+#                                               (what a user writes: string / number / dict / constructed object; validate_assignment parses it)
 #   ["unset", path]                             assign None (= omitted) to an attribute
 #   ["ins", listpath, pos, src, dpath]          list.insert of a donor element
 #   ["pop", listpath, idx]   ["delkey", dictpath, key]   ["setkey", dictpath, key, src, dpath]
@@ -526,14 +902,45 @@ def _differs(x, y):
         return True
 
 
-def _gen_op(rng, o, donors):
+def _resolve_raw(donor, raw, path):
+    """The part of the un-validated input `raw` that the place `path` of the validated donor was made from."""
+    cur, r = donor, raw
+    for kind, key in path:
+        if kind == "a":
+            if not isinstance(r, dict):
+                raise LookupError(key)  # given as an object / a number (parser-built)
+            f = type(cur).__fields__.get(key)
+            names = [key] if f is None else [f.alias, key]
+            hit = [n for n in names if n in r]
+            if not hit:
+                raise LookupError(key)  # omitted (default)
+            r = r[hit[0]]
+            cur = cur.__dict__[key]
+        elif kind == "i":
+            if not isinstance(r, list) or not isinstance(cur, list) or len(r) != len(cur):
+                raise LookupError(key)
+            r, cur = r[key], cur[key]
+        else:
+            if not isinstance(r, dict) or not isinstance(cur, dict):
+                raise LookupError(key)
+            r, cur = r[key], cur[key]
+    return r
+
+
+def _gen_op(rng, o, donors, raws=None):
     from pydantic import BaseModel
 
     slots = _slots(o, [], ("root",), [])
-    dindex = {}
+    dindex, rindex = {}, {}
     for src in sorted(donors):
         for p, tk, v in _slots(donors[src], [], ("root",), []):
             dindex.setdefault(tk, []).append((src, p, v))
+            if raws is not None and p[-1][0] == "a":
+                try:
+                    _resolve_raw(donors[src], raws[src], p)
+                    rindex.setdefault(tk, []).append((src, p, v))
+                except (LookupError, KeyError, IndexError, TypeError):
+                    pass
 
     def donor(tk, cur=None, pred=None):
         c = [x for x in dindex.get(tk, []) if pred is None or pred(x[2])]
@@ -545,7 +952,7 @@ def _gen_op(rng, o, donors):
                 return x
         return x
 
-    kinds = ["set"] * 6 + ["ins"] * 3 + ["pop", "setkey", "delkey", "union", "union", "unset", "copy", "copyupd", "copyupd", "dump", "dump", "reparse"] + ["check"] * 5
+    kinds = ["set"] * 6 + ["setraw"] * 3 + ["ins"] * 3 + ["pop", "setkey", "delkey", "union", "union", "unset", "copy", "copyupd", "copyupd", "dump", "dump", "reparse"] + ["check"] * 5
     for _ in range(6):
         k = rng.choice(kinds)
         if k == "check":
@@ -562,6 +969,13 @@ def _gen_op(rng, o, donors):
                 p, tk, v = rng.choice(deep if deep and rng.random() < 0.6 else c)
                 d = donor(tk, v)
                 return ["set", p, d[0], d[1]]
+        if k == "setraw":
+            # assign what a user would write (the un-validated input of the donor at that field: string, number, dict, constructed object)
+            c = [s for s in slots if s[0][-1][0] == "a" and s[1] in rindex]
+            if c:
+                p, tk, v = rng.choice(c)
+                d = rng.choice(rindex[tk])
+                return ["setraw", p, d[0], d[1]]
         if k == "unset":
             c = [s for s in slots if s[0][-1][0] == "a" and s[2] is not None]
             if c:
@@ -638,6 +1052,12 @@ def _apply(S, st, donors, op):
                 return False
             _assign(o, op[1], val)
             return True
+        if k == "setraw":
+            _resolve(o, op[1])
+            if op[1][-1][0] != "a" or _tkey_of(o, op[1]) != _tkey_of(donors[op[2]], op[3]):
+                return False
+            _assign(o, op[1], copy.deepcopy(_resolve_raw(donors[op[2]], st["raws"][op[2]], op[3])))
+            return True
         if k == "unset":
             _resolve(o, op[1])
             _assign(o, op[1], None)
@@ -692,16 +1112,18 @@ def _apply(S, st, donors, op):
     raise ValueError("unknown history op %r" % (op,))
 
 
-def run_history(S, a, b, name, ops=None, seed=0, nops=8):
+def run_history(S, a, b, name, ops=None, seed=0, nops=8, classes=None):
     """One history on one live instance built from input `a` (donor values from `b`).
     Returns (violations, tags); stops at the first violated check."""
     tags = []
     try:
-        o = S.parse_obj(json.loads(json.dumps(a)))
-        donors = {"a": S.parse_obj(json.loads(json.dumps(a))), "b": S.parse_obj(json.loads(json.dumps(b)))}
+        o = make_instance(S, a, classes)
+        donors = {"a": make_instance(S, a, classes), "b": make_instance(S, b, classes)}
+        # what the user wrote for the donors (strings, numbers, dicts, constructed objects): source of the "setraw" assignments
+        raws = {"a": materialise(json.loads(json.dumps(a)), classes), "b": materialise(json.loads(json.dumps(b)), classes)}
     except Exception:
         return [], ["hist-gen-invalid"]
-    st = {"o": o}
+    st = {"o": o, "raws": raws}
     explicit = ops is not None
     rng = random.Random(seed)
     done = []
@@ -714,7 +1136,7 @@ def run_history(S, a, b, name, ops=None, seed=0, nops=8):
         elif i == 0 and rng.random() < 0.8:
             op = ["check"] if rng.random() < 0.5 else ["dump", rng.choice(DUMP_FORMS[:4])]
         else:
-            op = _gen_op(rng, st["o"], donors)
+            op = _gen_op(rng, st["o"], donors, raws)
         i += 1
         if op[0] == "check":
             done.append(op)
@@ -735,7 +1157,7 @@ def run_history(S, a, b, name, ops=None, seed=0, nops=8):
         if _apply(S, st, donors, op):
             done.append(op)
             tags.append("hist-op:" + op[0])
-            if op[0] in ("set", "unset", "copyupd", "copy") and len(op[1]) > (0 if op[0] in ("copy", "copyupd") else 1):
+            if op[0] in ("set", "setraw", "unset", "copyupd", "copy") and len(op[1]) > (0 if op[0] in ("copy", "copyupd") else 1):
                 tags.append("hist-nested-change")
         else:
             tags.append("hist-op-refused:" + op[0])
@@ -766,10 +1188,13 @@ def impl(case):
         S = G.installed_schemas()[case["schema"]]
         rng = random.Random(case["seed"])
         hrng = random.Random(case["seed"] ^ 0x5BD1E995)
+        wrng = random.Random(case["seed"] ^ 0x2545F491)
         prev = None
         nvalid = 0
         for i in range(case["n"]):
             inp = G.gen_model_input(rng, S, case.get("depth", 2))
+            if case.get("wide") and wrng.random() < 0.6:
+                _widen_leaves(wrng, inp)  # places that refuse the value are dropped again by repair_input
             o = None
             for attempt in range(8):
                 try:
@@ -812,7 +1237,7 @@ def impl(case):
             oracle += check_instance(S, o, inp, case["schema"])
         return dict(out=None, oracle=oracle[:20], tags=tags + ["installed:%s" % case["schema"]], nvalid=len(case["inputs"]) - tags.count("gen-invalid"))
     if kind == "fam":
-        F = G.Family(case["fam"])
+        F = build_family(case["fam"])
         try:
             S = F.classes[case["root"]]
             try:
@@ -821,16 +1246,35 @@ def impl(case):
                 tags.append("check_types-ok")
             except TypeError:
                 tags.append("check_types-refuses")
+            # phase 1: the instances are created (validated)
+            objs = []
             for inp in case["inputs"]:
-                try:
-                    o = S.parse_obj(json.loads(json.dumps(inp)))
-                except ValidationError as e:
-                    out += ["err", "-"]
-                    tags.append("gen-invalid")
+                if not markers_ok(case["fam"], case["root"], inp):
+                    objs.append(None)
+                    tags.append("gen-invalid-object-at-untyped-place")
                     continue
-                except Exception as e:  # e.g. tokenize.TokenError out of pint
-                    out += ["err", "-"]
+                try:
+                    objs.append(make_instance(S, inp, F.classes))
+                except ValidationError as e:
+                    objs.append(None)
+                    tags.append("gen-invalid")
+                except Exception as e:  # e.g. tokenize.TokenError out of pint, or an object that cannot be constructed
+                    objs.append(None)
                     tags.append("gen-invalid-exc:%s:%s" % (type(e).__name__, json.dumps(inp)[:200]))
+            # user value types whose encoder is registered only now / only after a first (refused) dump
+            if _UV["pending"]:
+                _uv_register(("inst",))
+                for o in objs:
+                    if o is not None and _UV["pending"]:
+                        try:
+                            o.json()
+                        except TypeError:
+                            tags.append("uv-dump-before-registration-refused")
+                _uv_register(UV_ORDERS)
+            # phase 2: the clauses on every valid instance
+            for inp, o in zip(case["inputs"], objs):
+                if o is None:
+                    out += ["err", "-"]
                     continue
                 oracle += check_instance(S, o, inp, case["root"])
                 tags += _inst_tags(case["fam"], case["root"], inp)
@@ -848,19 +1292,22 @@ def impl(case):
     if kind == "hist":
         # histories on live instances: generated family (fam/root) or installed schema (schema);
         # explicit `ops` on inputs=[a, b], or `seeds`: one random history per seed on a pair of the inputs
-        F = G.Family(case["fam"]) if case.get("fam") else None
+        F = build_family(case["fam"], upto=UV_ORDERS) if case.get("fam") else None
+        classes = F.classes if F else None
         try:
             S = F.classes[case["root"]] if F else G.installed_schemas()[case["schema"]]
             name = case["root"] if F else case["schema"]
             inputs = case["inputs"]
+            if F and not all(markers_ok(case["fam"], case["root"], x) for x in inputs):
+                return dict(out=None, oracle=[], tags=["gen-invalid-object-at-untyped-place"])
             if case.get("ops") is not None:
-                V, tg = run_history(S, inputs[0], inputs[1 % len(inputs)], name, ops=case["ops"])
+                V, tg = run_history(S, inputs[0], inputs[1 % len(inputs)], name, ops=case["ops"], classes=classes)
                 oracle += V
                 tags += tg
             else:
                 for i, sd in enumerate(case["seeds"]):
                     a, b = inputs[i % len(inputs)], inputs[(i + 1) % len(inputs)]
-                    V, tg = run_history(S, a, b, name, seed=sd, nops=case.get("nops", 8))
+                    V, tg = run_history(S, a, b, name, seed=sd, nops=case.get("nops", 8), classes=classes)
                     oracle += V
                     tags += tg
         finally:
@@ -1064,6 +1511,106 @@ def gen_pv_fam_cases(ctx, n):
     return cases
 
 
+def add_typed_fields(rng, fam, mk, prefix, p=0.8, shapes=("plain", "opt", "list", "optlist")):
+    """Give classes of a generated family 1-2 more fields of the types made by mk(rng) (plain / Optional / List / Set)."""
+    fam = json.loads(json.dumps(fam))
+    for cd in fam:
+        if cd["parent"] and G.eff_extra(fam, cd["parent"]) == "forbid":
+            continue
+        if rng.random() > p:
+            continue
+        for j in range(rng.randrange(1, 3)):
+            t = mk(rng)
+            sh = rng.choice(shapes)
+            t = {"plain": t, "opt": ["opt", t], "list": ["list", t], "optlist": ["opt", ["list", t]], "set": ["set", t], "optset": ["opt", ["set", t]]}[sh]
+            cd["fields"].append(["%s%d%s" % (prefix, j, cd["name"].lower()[0]), t, None])
+    return fam
+
+
+def _rich_root(rng, fam, marks):
+    rich = [cd["name"] for cd in fam if any(m in json.dumps(G.eff_fields(fam, cd["name"])) for m in marks)]
+    return rng.choice(rich) if rich and rng.random() < 0.85 else rng.choice(fam)["name"]
+
+
+def gen_wide_fam_cases(ctx, n):
+    """Generated families whose string places hold values from the full str domain (real code only)."""
+    rng = ctx.rng
+    cases = []
+    for i in range(n):
+        fam = add_typed_fields(rng, G.rand_family(rng, n_classes=rng.randrange(1, 4), depth=rng.randrange(0, 3)), lambda r: [r.choice(["str", "nes"])], "w",
+                               shapes=("plain", "opt", "list", "optlist", "set"))
+        root = _rich_root(rng, fam, ('"str"', '"nes"'))
+        inputs = [widen_input(rng, fam, root, G.gen_obj(rng, fam, root, 2)) for _ in range(4 if ctx.quick else 6)]
+        cases.append(dict(kind="fam", fam=fam, root=root, inputs=inputs, nomodel=True, wide=True))
+    return cases
+
+
+def gen_obj_fam_cases(ctx, n):
+    """Generated families (also with parser-built value schemas and user value types) whose inputs give values as
+    already-constructed objects of the field type, also in non-normal forms (real code only)."""
+    rng = ctx.rng
+    cases = []
+    for i in range(n):
+        fam = G.rand_family(rng, n_classes=rng.randrange(1, 4), depth=rng.randrange(0, 3))
+        fam = add_typed_fields(rng, fam, lambda r: [r.choice(["dur", "dur", "unit", "qty"])], "o", shapes=("plain", "opt", "list", "optlist", "set"))
+        if i % 4 == 1:
+            fam = add_pv_fields(rng, fam, 0.5)
+        if i % 4 == 2:
+            fam = add_uv_fields(rng, fam, 0.5)
+        root = _rich_root(rng, fam, ('"model"', '"dur"', '"unit"', '"qty"'))
+        inputs = [objectify_input(rng, fam, root, G.gen_obj(rng, fam, root, 2)) for _ in range(4 if ctx.quick else 6)]
+        cases.append(dict(kind="fam", fam=fam, root=root, inputs=inputs, nomodel=True, wide=True))
+    return cases
+
+
+def gen_uv_fam_cases(ctx, n):
+    """Generated families with fields of user-registered value types, every order of encoder registration (real code only)."""
+    rng = ctx.rng
+    cases = []
+    for i in range(n):
+        fam = add_uv_fields(rng, G.rand_family(rng, n_classes=rng.randrange(1, 4), depth=rng.randrange(0, 2)))
+        root = _rich_root(rng, fam, ('"ext"',))
+        inputs = [G.gen_obj(rng, fam, root, 2) for _ in range(3 if ctx.quick else 6)]
+        if rng.random() < 0.3:
+            inputs = [objectify_input(rng, fam, root, x) for x in inputs]
+        cases.append(dict(kind="fam", fam=fam, root=root, inputs=inputs, nomodel=True, wide=True))
+    return cases
+
+
+def wide_focused_families():
+    """Hand-picked shapes for the widened value and construction alphabets (always run, real code only)."""
+    O, L, St, E, M = (lambda t: ["opt", t]), (lambda t: ["list", t]), (lambda t: ["set", t]), (lambda n: ["ext", n]), (lambda n: ["model", n])
+    cd = lambda name, fields, consts=(), parent=None, extra=None: dict(name=name, parent=parent, extra=extra, fields=[[a, b, None] for a, b in fields], consts=[list(c) for c in consts], overrides=[], mandatory=[])
+    D = lambda **kw: {OBJ: "dur", "kw": kw}
+    fams = []
+    # a file listing: names as the file system hands them out, comments, tags; nested
+    files = [cd("Aa", [("filename", ["nes"]), ("comment", O(["str"])), ("tags", O(L(["str"]))), ("keys", O(St(["nes"])))]),
+             cd("Bb", [("name", ["str"]), ("files", L(M("Aa")))], consts=[("@type", "Listing")])]
+    fams.append((files, "Bb", [{"name": w, "files": [{"filename": "ok.txt"}, {"filename": w2, "comment": w3, "tags": [w, "t"], "keys": [w2]}], "zz_extra": w3}
+                               for w, w2, w3 in zip(WIDE_STR[0::3], WIDE_STR[1::3], WIDE_STR[2::3])]))
+    # durations / units / quantities given as objects: plain, optional, list, set, nested instance
+    step = [cd("Aa", [("label", ["str"]), ("lasts", ["dur"])]),
+            cd("Bb", [("total", ["dur"]), ("pause", O(["dur"])), ("slots", O(L(["dur"]))), ("kinds", O(St(["dur"]))), ("steps", O(L(M("Aa")))), ("u", O(["unit"])), ("q", O(["qty"])), ("lq", O(L(["qty"])))])]
+    ins = []
+    for i in range(0, len(DUR_KW) - 2, 3):
+        a, b, c = DUR_KW[i], DUR_KW[i + 1], DUR_KW[i + 2]
+        ins.append({"total": D(**a), "pause": D(**b), "slots": [D(**c), "PT1M", D(**a)], "kinds": [D(**b), D(**c)],
+                    "steps": [{OBJ: "model", "cls": "Aa", "how": "kw", "v": {"label": "x", "lasts": D(**c)}}, {"label": "y", "lasts": D(**a)}],
+                    "u": {OBJ: "unit", "s": QTY_UNITS[i % len(QTY_UNITS)]}, "q": {OBJ: "qty", "args": [QTY_MAGS[i % len(QTY_MAGS)], QTY_UNITS[(i + 1) % len(QTY_UNITS)]]},
+                    "lq": [{OBJ: "qty", "args": ["1000 m"]}, "5 km/h", {OBJ: "qty", "args": [2.5, "kg*m/s**2"]}]})
+    fams.append((step, "Bb", ins))
+    # user value types: one schema per registration order, nested in a JSON-LD-like record
+    for kind in UV_KINDS:
+        vals = UV_INPUTS[kind]
+        fam = [cd(n, [("label", ["str"]), ("share", E("uv-%s-%s" % (kind, o))), ("parts", O(L(E("uv-%s-%s" % (kind, o)))))]) for n, o in zip(["Aa", "Bb", "Cc", "Dd", "Ee"], UV_ORDERS)]
+        fam.append(cd("Ff", [("name", ["str"])] + [("c" + n.lower(), O(L(M(n)))) for n in ["Aa", "Bb", "Cc", "Dd", "Ee"]], consts=[("@context", "https://example.org/lab"), ("@type", "Mixture")]))
+        one = lambda j: {"label": "w", "share": vals[j % len(vals)], "parts": [vals[(j + 1) % len(vals)], {OBJ: "ext", "name": "uv-%s-%s" % (kind, UV_ORDERS[j % 5]), "v": vals[(j + 2) % len(vals)]}]}
+        fams.append((fam, "Ff", [dict([("name", "m")] + [("c" + n.lower(), [one(j), {"label": "s", "share": vals[0]}]) for j, n in enumerate(["Aa", "Bb", "Cc", "Dd", "Ee"])])]))
+        for n in ["Aa", "Bb", "Cc", "Dd", "Ee"]:
+            fams.append((fam, n, [{"label": "l", "share": vals[1]}]))
+    return [dict(kind="fam", fam=f, root=r, inputs=i, nomodel=True, wide=True) for f, r, i in fams]
+
+
 def pv_focused_families():
     """Hand-picked shapes with parser-built value schemas (always run, real code only)."""
     O, L, E = (lambda t: ["opt", t]), (lambda t: ["list", t]), (lambda v: ["ext", "pv-" + v])
@@ -1130,16 +1677,23 @@ def gen_hist_cases(ctx, n):
     """Histories on live instances of generated families (biased to nested schemas and containers)."""
     rng = ctx.rng
     cases = []
-    for f, r, i in [(c["fam"], c["root"], c["inputs"]) for c in focused_families() if not c.get("nomodel")] + [(c["fam"], c["root"], c["inputs"]) for c in pv_focused_families()]:
+    for f, r, i in ([(c["fam"], c["root"], c["inputs"]) for c in focused_families() if not c.get("nomodel")] + [(c["fam"], c["root"], c["inputs"]) for c in pv_focused_families()]
+                    + [(c["fam"], c["root"], c["inputs"]) for c in wide_focused_families()[:5] if len(c["inputs"]) > 1]):
         cases.append(dict(kind="hist", fam=f, root=r, inputs=i, seeds=[rng.randrange(1 << 30) for _ in range(6 if ctx.quick else 40)], nops=9))
     for i in range(n):
         fam = G.rand_family(rng, n_classes=rng.randrange(1, 5), depth=rng.randrange(1, 3))
         if i % 5 == 4:
             fam = add_pv_fields(rng, fam)  # live instances holding parser-built values (assignment runs the Parser again)
+        if i % 10 == 3:
+            fam = add_uv_fields(rng, fam)  # ... user-registered value types
         # roots that hold other schemas / containers first
         rich = [cd["name"] for cd in fam if any(t in json.dumps(G.eff_fields(fam, cd["name"])) for t in ('"model"', '"list"', '"set"', '"ext"'))]
         root = rng.choice(rich) if rich and rng.random() < 0.8 else rng.choice(fam)["name"]
         inputs = [G.gen_obj(rng, fam, root, 2) for _ in range(3)]
+        if i % 5 == 1:
+            inputs = [objectify_input(rng, fam, root, x) for x in inputs]  # the user's values are constructed objects (used by "setraw")
+        if i % 5 == 2:
+            inputs = [widen_input(rng, fam, root, x) for x in inputs]
         cases.append(dict(kind="hist", fam=fam, root=root, inputs=inputs, seeds=[rng.randrange(1 << 30) for _ in range(3)], nops=rng.randrange(4, 11)))
     return cases
 
@@ -1162,7 +1716,7 @@ def gen_inst_cases(ctx, names):
     per = 3 if ctx.quick else 12
     for name in names:
         for k in range(per):
-            cases.append(dict(kind="inst", schema=name, seed=ctx.rng.randrange(1 << 30), n=8 if ctx.quick else 25, depth=2 + (k % 2)))
+            cases.append(dict(kind="inst", schema=name, seed=ctx.rng.randrange(1 << 30), n=8 if ctx.quick else 25, depth=2 + (k % 2), **({"wide": True} if k % 3 == 2 else {})))
     return cases
 
 
@@ -1216,8 +1770,12 @@ def run(ctx):
                 "(fam) families of 1-4 schema classes generated from the field-type grammar (strict primitives incl. falsy values, constrained strings, Literal, "
                 "Optional, unambiguous Unions, List, Set of hashables, nested / recursive / inherited schemas, Duration, PintUnit, PintQuantity, constants, extra policies, "
                 "defaults), 4-6 valid inputs each; hand-picked families always run; (fam, real code only) the same families with fields holding value schemas that are built by a custom "
-                "Parser class (Pixels, NumValue with unit, SIValue, user-defined NumValue subclasses with own constants / required unit; plain, Optional, List; bare numbers and dicts); (hist) histories on one live instance of a generated family or an installed schema: "
-                "dump / assign at any depth / in-place list, dict, set updates / copy, copy(update) / re-parse, values from a second valid instance at the same field position, "
+                "Parser class (Pixels, NumValue with unit, SIValue, user-defined NumValue subclasses with own constants / required unit; plain, Optional, List; bare numbers and dicts); "
+                "(fam, real code only) string places from the full str domain (unpaired surrogates, NUL, BOM, separators, controls, non-BMP, very long); values given as already-constructed objects "
+                "(Duration incl. years / months / negative / fractional parts, PintUnit, PintQuantity with int / float magnitude, nested schema instances, parser-built values, user value types); "
+                "user-registered value types (Fraction subclass, plain class encoded as string, plain class encoded as array) whose encoder is registered by decorator / before the schema class / "
+                "after the family / after the instances were created / after a first refused dump; (hist) histories on one live instance of a generated family or an installed schema: "
+                "dump / assign at any depth / assign the un-validated value a user would write (string, number, dict, constructed object) / in-place list, dict, set updates / copy, copy(update) / re-parse, values from a second valid instance at the same field position, "
                 "all clauses re-checked on every reached state that equals a freshly validated instance. Non-trivial = tagged (has-dur/unit/qty/set/union/const/inheritance, omitted optional, falsy value, "
                 "rich installed instance).")
     ctx.assumptions += [
@@ -1225,12 +1783,17 @@ def run(ctx):
         "isodate / pint string codecs are inverse on their normal forms (hypothesis `NormOk`; the graph of parse-then-format on every string used is taken from the real libraries and its fixed-point property is checked by the oracle)",
         "union alternatives of generated schemas have disjoint JSON encodings (pydantic left-to-right unions are otherwise inherently ambiguous)",
         "strings sent to the model use ASCII whitespace only (the oracle also uses others)",
+        "quantities given as constructed PintQuantity objects have int or float magnitudes in the random generators (Fraction / Decimal / complex magnitudes: recorded finding F39, fixed probe `quantity_object_probe`); "
+        "for such instances only equality of the second trip is demanded, not identical text (an int magnitude with a division unit is written as '5 meter / second' and read as 5.0)",
+        "a constructed object counts as a value of a supported field type only at a declared field of its own type (never in an extra field)",
     ]
     load_nf(ctx)
     corpus = core.load_corpus(ID)
     fam_cases = ([c for c in corpus if c["kind"] == "fam"] + focused_families() + pv_focused_families() + [numvalue_probe()]
-                 + gen_fam_cases(ctx, 300 if ctx.quick else 6000) + gen_pv_fam_cases(ctx, 60 if ctx.quick else 1200))
-    ensure_nf(ctx, [c for c in fam_cases if '"ext"' not in json.dumps(c["fam"])])
+                 + gen_fam_cases(ctx, 300 if ctx.quick else 6000) + gen_pv_fam_cases(ctx, 60 if ctx.quick else 1200)
+                 + [quantity_object_probe()] + wide_focused_families() + gen_wide_fam_cases(ctx, 60 if ctx.quick else 1200) + gen_obj_fam_cases(ctx, 80 if ctx.quick else 1600)
+                 + gen_uv_fam_cases(ctx, 40 if ctx.quick else 800))
+    ensure_nf(ctx, [c for c in fam_cases if '"ext"' not in json.dumps(c["fam"]) and not (c.get("nomodel") and c.get("wide"))])
     ctx.correspond("codec-families", MOD, fam_cases, lines, "drv_cod", compare=compare, timeout=120)
     run_hist(ctx, [c for c in corpus if c["kind"] == "hist"] + gen_hist_cases(ctx, 150 if ctx.quick else 3000))
     names = installed_names()
@@ -1264,6 +1827,8 @@ def signature(case, detail):
     if not isinstance(detail, dict):
         return "%s:%s" % (ID, str(detail)[:40])
     kind = detail.get("kind")
+    if _has_exotic_mag([case.get("inputs"), detail.get("input"), (detail.get("history") or {}).get("inputs")]):
+        return "%s:quantity-object-exotic-magnitude" % ID  # see quantity_object_probe (F39)
     if kind == "normal-form-not-fixed":
         cause = ":offset-unit" if "offset unit" in str(detail.get("error", "")).lower() else ""
         return "%s:%s:%s%s" % (ID, kind, detail.get("type"), cause)
@@ -1322,6 +1887,44 @@ def _shrink_json(obj, test, budget):
                 obj = cand
                 changed = True
                 break
+    # string leaves (values): shorter pieces, as long as the candidate still fails
+    changed = True
+    while changed and budget[0] > 0:
+        changed = False
+        leaves = []
+
+        def walk2(x, path):
+            if isinstance(x, dict):
+                for k, v in x.items():
+                    walk2(v, path + [k])
+            elif isinstance(x, list):
+                for i, v in enumerate(x):
+                    walk2(v, path + [i])
+            elif isinstance(x, str) and len(x) > 1 and path and path[-1] != OBJ:
+                leaves.append(path)
+
+        walk2(obj, [])
+        for pth in leaves:
+            cur = obj
+            for x in pth[:-1]:
+                cur = cur[x]
+            sv = cur[pth[-1]]
+            cands = [sv[:len(sv) // 2], sv[len(sv) // 2:]] + ([c for c in dict.fromkeys(sv)] if len(sv) <= 12 else [])
+            for piece in cands:
+                if not piece or piece == sv or budget[0] <= 0:
+                    continue
+                cand = json.loads(json.dumps(obj))
+                c2 = cand
+                for x in pth[:-1]:
+                    c2 = c2[x]
+                c2[pth[-1]] = piece
+                budget[0] -= 1
+                if test(cand):
+                    obj = cand
+                    changed = True
+                    break
+            if changed:
+                break
     return obj
 
 
@@ -1353,6 +1956,12 @@ def search(ctx):
         cases = gen_pv_fam_cases(sub, 100)
         res = pool.run(MOD, "impl", cases, timeout=120)
         ctx.search_log.append("seed %d: %d generated families with parser-built value schemas, oracle only" % (sub.seed, len(cases)))
+        for c, r in zip(cases, res):
+            if "ok" in r and r["ok"]["oracle"]:
+                return shrink(ctx, c, r["ok"]["oracle"][0])
+        cases = wide_focused_families() + gen_wide_fam_cases(sub, 60) + gen_obj_fam_cases(sub, 80) + gen_uv_fam_cases(sub, 40)
+        res = pool.run(MOD, "impl", cases, timeout=120)
+        ctx.search_log.append("seed %d: %d generated families with wide strings / values given as objects / user value types, oracle only" % (sub.seed, len(cases)))
         for c, r in zip(cases, res):
             if "ok" in r and r["ok"]["oracle"]:
                 return shrink(ctx, c, r["ok"]["oracle"][0])
